@@ -18,9 +18,14 @@ virtual time never passes an armed timer's deadline without the timer expiring (
 exactly at their deadline). Every engine path is a path of `Model.Batch.step code`.
 
 Lines:
-    cfg batch <maxWait> <batchSize>           |  cfg func <maxWait> <gated:0|1>
-    step <action> [arg] obs <cons> <nres> <lastres> <pulled> <spend> <sclosed> <cret> <fpend>
-actions: rel <v> | eof | err [canceled|wrapcanceled|deadline|wrapdeadline] | next live | next dead | cancel | sleep <d> | fullret | fullopen | close
+    cfg batch <maxWait> <batchSize> [slow]    |  cfg func <maxWait> <gated:0|1> [slow]
+    step <action> [arg] obs <cons> <nres> <lastres> <pulled> <spend> <sclosed> <cret> <fpend> <sinclose>
+actions: rel <v> | eof | err [canceled|wrapcanceled|deadline|wrapdeadline] | next live | next dead | cancel | sleep <d> | fullret | fullopen | close | srcclosed
+
+`slow`: the source's `Close` takes time — it returns when the script says so (`srcclosed`). The model's
+`prodCloseSrc` label is the *return* of `s.Close()` (followed by `wg.Done()`); while the harness holds
+the call it is an environment action, not an internal move. `<sclosed>` counts returned calls,
+`<sinclose>` says that the producer is inside the held call.
 -/
 namespace Juniper.Driver.C11
 open Juniper.Driver Juniper.Model.Batch
@@ -31,6 +36,8 @@ structure EState where
   q : List Label := []
   tokens : Nat := 0
   gated : Bool := false
+  /-- the source's `Close` is held by the harness (not released yet) -/
+  slowClose : Bool := false
   deriving DecidableEq
 
 structure Eng where
@@ -52,6 +59,7 @@ def moves (cfg : Cfg) (e : EState) : List EState :=
       if e.gated && e.tokens == 0 then none
       else (step code cfg e.s l).map fun s' =>
         { e with s := s', tokens := if e.gated then e.tokens - 1 else e.tokens }
+    | .prodCloseSrc => if e.slowClose then none else (step code cfg e.s l).map fun s' => { e with s := s' }
     | _ => (step code cfg e.s l).map fun s' => { e with s := s' }
   let src := match e.q with
     | l :: rest => ((step code cfg e.s l).map fun s' => { e with s := s', q := rest }).toList
@@ -108,7 +116,8 @@ def obsOf (e : EState) : List String :=
     b01 (e.s.ppc = .next),
     toString e.s.srcCloses,
     b01 e.s.closeReturned,
-    b01 (e.s.bpc = .inFull) ]
+    b01 (e.s.bpc = .inFull),
+    b01 (e.slowClose && decide (e.s.ppc = .closeSrc)) ]
 
 def dedup (l : List EState) : List EState :=
   l.foldl (fun acc e => if acc.contains e then acc else e :: acc) []
@@ -132,6 +141,7 @@ def doAction (cfg : Cfg) (set : List EState) : List String → Option (List ESta
   | ["fullret"] => some (set.map fun e => { e with tokens := e.tokens + 1 })
   | ["fullopen"] => some (set.map fun e => { e with gated := false })
   | ["close"] => some (applyLabel cfg .close set)
+  | ["srcclosed"] => some (set.map fun e => { e with slowClose := false })
   | _ => none
 
 def stepLine (g : Eng) (toks : List String) : Eng × String :=
@@ -142,6 +152,12 @@ def stepLine (g : Eng) (toks : List String) : Eng × String :=
   | ["cfg", "func", mw, gated] =>
     let cfg := funcCfg (natOr mw)
     ({ cfg := some cfg, set := [{ s := init, gated := gated == "1" }] }, "ok 1")
+  | ["cfg", "batch", mw, sz, "slow"] =>
+    let cfg := Cfg.ofBatch (natOr mw) (natOr sz)
+    ({ cfg := some cfg, set := [{ s := init, slowClose := true }] }, "ok 1")
+  | ["cfg", "func", mw, gated, "slow"] =>
+    let cfg := funcCfg (natOr mw)
+    ({ cfg := some cfg, set := [{ s := init, gated := gated == "1", slowClose := true }] }, "ok 1")
   | "step" :: rest =>
     match g.cfg with
     | none => (g, "bad-op no cfg")
